@@ -5,6 +5,7 @@ import (
 	"go/ast"
 	"go/token"
 	"go/types"
+	"sort"
 	"strings"
 
 	"golang.org/x/tools/go/packages"
@@ -105,6 +106,29 @@ func (fc *formCtx) norm(e ast.Expr, d int) string {
 	case *ast.UnaryExpr:
 		return x.Op.String() + fc.norm(x.X, d)
 	case *ast.BinaryExpr:
+		// + and * commute: `1 + (i * 2)` and `i*2 + 1` are one access
+		if x.Op == token.ADD || x.Op == token.MUL {
+			var operands []string
+			var flatten func(e ast.Expr)
+			flatten = func(e ast.Expr) {
+				if p, ok := e.(*ast.ParenExpr); ok {
+					e = p.X
+				}
+				if b, ok := e.(*ast.BinaryExpr); ok && b.Op == x.Op {
+					flatten(b.X)
+					flatten(b.Y)
+					return
+				}
+				t := fc.norm(e, d)
+				if _, isBin := e.(*ast.BinaryExpr); isBin {
+					t = "(" + t + ")"
+				}
+				operands = append(operands, t)
+			}
+			flatten(x)
+			sort.Strings(operands)
+			return strings.Join(operands, " "+x.Op.String()+" ")
+		}
 		return fc.norm(x.X, d) + " " + x.Op.String() + " " + fc.norm(x.Y, d)
 	case *ast.IndexExpr:
 		return fc.norm(x.X, d) + "[" + fc.norm(x.Index, d) + "]"
